@@ -28,6 +28,10 @@ var stubs = map[string]externalFn{}
 var harnessRedirects = map[string]string{
 	"os.Open": "verifStubOsOpen",
 	"github.com/atlassian/escalator/pkg/controller.UnmarshalNodeGroupOptions": "verifStubUnmarshalNodeGroupOptions",
+	// informer plumbing (client-go reflectors, goroutines): the harness hands out its fake all-listers
+	"github.com/atlassian/escalator/pkg/k8s.NewCachePodWatcher":  "verifStubNewCachePodWatcher",
+	"github.com/atlassian/escalator/pkg/k8s.NewCacheNodeWatcher": "verifStubNewCacheNodeWatcher",
+	"github.com/atlassian/escalator/pkg/k8s.WaitForSync":         "verifStubWaitForSync",
 }
 
 var timeAllowed = map[string]bool{
